@@ -71,6 +71,14 @@ func dispatch(kind string, args []*Sexp) (out *Sexp) {
 	case "modgraph":
 		return runModGraph(args)
 	}
+	switch kind {
+	case "trace":
+		return runTrace(args)
+	}
+	switch kind {
+	case "evalseq":
+		return runEvalSeq(args)
+	}
 	return L(A("unknown-kind"), A(kind))
 }
 
